@@ -474,6 +474,37 @@ func (e *encEngine) elemDomain(fi *core.FuncInfo, x ast.Expr) dom {
 			if res != "" {
 				return res
 			}
+			// a local map of strings: the domain of the values stored into it (m[k] = v), when they agree
+			if mt, isMap := o.Type().Underlying().(*types.Map); isMap && core.IsString(mt.Elem()) {
+				var mres dom = ""
+				mixed := false
+				ast.Inspect(fi.Decl.Body, func(n ast.Node) bool {
+					as, ok := n.(*ast.AssignStmt)
+					if !ok || len(as.Lhs) != len(as.Rhs) {
+						return true
+					}
+					for i, l := range as.Lhs {
+						if ix, ok := core.Unparen(l).(*ast.IndexExpr); ok && core.ObjOf(info, ix.X) == o {
+							vd := e.dom(fi, as.Rhs[i])
+							if vd == dX {
+								// a local defined once: take the domain of its definition
+								if set := e.domSetFresh(fi, as.Rhs[i]); len(set) == 1 {
+									vd = set[0]
+								}
+							}
+							if mres == "" {
+								mres = vd
+							} else if mres != vd {
+								mixed = true
+							}
+						}
+					}
+					return true
+				})
+				if mres != "" && !mixed {
+					return mres
+				}
+			}
 		}
 	}
 	return dX
